@@ -12,6 +12,12 @@ CHECKS = {
    note="SHA-256 / rs_merkle collision freedom; nothing claimed beyond the length bound.",
    technique="bounded exhaustive enumeration of all input pairs against a reference (prefix) model, executed on the real CommitTree/CommitProof code",
    design_ref="DESIGN.md §5 C08"),
+ "C03": dict(engine="leakx", level="model_checking",
+   text="For every one of the 15 secret kinds x client backend a real account is driven through a fixed history (create with marker values, update, folder with marker description, attachment, backup archive export, folder export, sync to a real in-process server through a recording TCP tee, further edit + sync, second device pulls); every user-supplied plaintext, every delegated folder password, the account password and the device signing key are markers. Every file under both client directories and the server directory (SQLite files and WAL, event logs, vaults, blobs, archives raw and inflated) and every byte captured on the wire in both directions is scanned for every marker in raw, hex, base64 (std/url, 3 alignments), UTF-16 LE/BE and JSON-escaped form. Positive controls (planted marker; markers present in the decrypted view) must succeed on every run.",
+   note="Decides absence of the enumerated encodings, not cryptographic secrecy; histories are one fixed 9-step history per kind (the depth dimension is explored by C01's engine, whose blobs are all produced by the same encryption path); pairing messages are not driven.",
+   technique="exhaustive enumeration of secret kinds x backends x marker encodings over all stored bytes and all wire bytes of a real client/server history",
+   design_ref="DESIGN.md §5 C03"),
+
  "C09": dict(engine="schedx", level="model_checking",
    text="Stateless CHESS-style schedule exploration of the real client auto-merge code (default AutoMerge/RemoteSyncHandler methods over a real LocalAccount) against a real in-process server: one execute_sync call per device, a gate at every protocol request (exists, status, sync, scan, diff, patch, ...) inside the harness's SyncClient wrapper; deviation-bounded DFS over choice vectors (preemption bound 2 quick / 4 thorough) for pre-histories {one ahead, soft conflict equal/unequal length, same secret edited on both, both rename; thorough: no divergence and three devices}. Per step: the server's logs never lose an event they held, read requests change nothing; per execution: every sync call ends (no deadlock, no horizon overflow), no event the server ever held is absent at the end, and three further sequential rounds converge.",
    note="Scheduling points are protocol requests (sound for devices that share only the server; the server handles one request at a time in the harness); interleavings inside one handler are not explored; replayed prefixes must reproduce (divergence is a machinery error).",
